@@ -500,6 +500,43 @@ if out is not None:
             if bad: break
     except Exception as ex:
         bad.append(f'gen_gals raised {{type(ex).__name__}}: {{ex}} for another thread count')
+# Concrete family (the stand-ins cannot follow every solver model: 10**x is a real pow here and an uninterpreted one there): the REAL
+# compiled gen_gals with the real occupation functions on a table with quantised masses (equal neighbours), random environment and
+# non-zero assembly bias must give the same catalogue for every thread count.
+if not bad:
+    try:
+        rng = np.random.default_rng(7)
+        for H2, P2 in ((7, 60), (50, 1500)):
+            hq = dict(hpos=rng.random((H2, 3)) * 100 - 50, hvel=rng.normal(size=(H2, 3)) * 300, hmass=2e9 * rng.integers(3000, 3004, H2).astype(float),
+                      hid=np.arange(H2, dtype=np.int64) * 7 + 3, hmultis=np.ones(H2), hrandoms=rng.random(H2) * 0.3, hveldev=rng.normal(size=(H2, 3)) * 100,
+                      hdeltac=rng.random(H2) - 0.5, hfenv=rng.random(H2) - 0.5, hshear=rng.random(H2) - 0.5)
+            pq = dict(ppos=rng.random((P2, 3)) * 100 - 50, pvel=rng.normal(size=(P2, 3)) * 300, phvel=rng.normal(size=(P2, 3)) * 300,
+                      phmass=2e9 * rng.integers(30000, 30003, P2).astype(float), phid=np.arange(P2, dtype=np.int64), pweights=rng.random(P2) * 0.5,
+                      prandoms=rng.random(P2), pdeltac=rng.random(P2) - 0.5, pfenv=rng.random(P2) - 0.5, pshear=rng.random(P2) - 0.5,
+                      pranks=rng.random(P2) - 0.5, pranksv=rng.random(P2) - 0.5, pranksp=rng.random(P2) - 0.5, pranksr=rng.random(P2) - 0.5,
+                      pranksc=rng.random(P2) - 0.5, pinds=rng.integers(0, H2, P2))
+            trq = {{'LRG': dict(logM_cut=12.6, logM1=13.6, sigma=0.5, alpha=1.0, kappa=0.5, alpha_c=0.2, alpha_s=0.9, s=0.1, s_v=0.0, s_p=0.0, s_r=0.0,
+                               Acent=0.3, Asat=0.6, Bcent=-0.2, Bsat=-0.5, ic=0.9),
+                   'ELG': dict(p_max=0.4, Q=100.0, logM_cut=12.2, kappa=1.0, sigma=0.6, logM1=13.5, alpha=0.9, gamma=4.0, A_s=1.0, alpha_c=0.1, alpha_s=1.0,
+                               s=0.0, s_v=0.1, s_p=0.0, s_r=0.0, Acent=0.2, Asat=0.4, Bcent=0.05, Bsat=0.3, Ccent=0.1, Csat=0.2, ic=1.0),
+                   'QSO': dict(logM_cut=12.5, kappa=1.0, sigma=0.4, logM1=14.0, alpha=1.0, alpha_c=0.0, alpha_s=1.0, s=0.0, s_v=0.0, s_p=0.0, s_r=0.1,
+                               Acent=0.1, Asat=0.3, Bcent=0.2, Bsat=-0.2, ic=0.5)}}
+            trq = {{t: trq[t] for t in tracers}}
+            parq = dict(z=0.5, velz2kms=900.0, Lbox=100.0, Mpart=2e9, origin=None)
+            ref = None
+            for nt_ in (1, 2, 3, 5, 8):
+                o = gh.gen_gals({{k: v.copy() for k, v in hq.items()}}, {{k: v.copy() for k, v in pq.items()}}, {{t: dict(d) for t, d in trq.items()}}, parq, nt_, False, False, False, False)
+                snap = {{t: {{k: np.asarray(v).copy() for k, v in o[t].items()}} for t in o}}
+                if ref is None: ref = snap; continue
+                for t in snap:
+                    for k in snap[t]:
+                        if snap[t][k].shape != ref[t][k].shape or not np.array_equal(snap[t][k], ref[t][k], equal_nan=True):
+                            bad.append(f'real compiled gen_gals, {{H2}} hosts / {{P2}} particles with quantised masses: {{t}}.{{k}} differs between Nthread=1 and Nthread={{nt_}} (rows {{ref[t][k].shape}} vs {{snap[t][k].shape}})'); break
+                    if bad: break
+                if bad: break
+            if bad: break
+    except Exception as ex:
+        print('concrete family skipped:', type(ex).__name__, ex)
 # frame condition: the caller's dictionaries come back unchanged
 try:
     tr_in = {{t: dict(d) for t, d in tr_call.items()}}; par_in = dict(params)
